@@ -18,7 +18,7 @@ def check(cd, tree, extra):
     expected = ref_encode(cd, canon, om)
     # timestamps are handed to the encoder in a DST-observing zone half of the time (the instant, hence the wire value, is
     # the same; the generated values include both "fold twins" of repeated wall-clock times and both sides of offset changes)
-    zone = ("Europe/Paris", "America/New_York", "Australia/Lord_Howe", None, None, None)[len(expected) % 6]
+    zone = ("Europe/Paris", "America/New_York", "Australia/Lord_Howe", None, None, None, ("s", 2670), "Africa/Monrovia", None)[len(expected) % 9]
     if zone:
         from .c01 import _rezone
 
